@@ -216,24 +216,38 @@ def run(cx, rep):
                     rep.ob("C07.3", "%s/%s" % (f.id.rsplit("::", 1)[-1], adt.rsplit("::", 1)[-1]), False,
                            "match over %s in %s has a catch-all arm that produces a value: a tag/atom kind would be materialised as something else" % (adt, f.id),
                            "%s:%s" % (f.file, a["line"]))
-    # every arm of the tag / proper-subtype dispatch of convert_to_schema_no_cache contributes to the accumulated union
+    # every arm of the tag / proper-subtype dispatch that accumulates the materialised union contributes to it.  The
+    # dispatch is located by role: a match over SubTypeTag / ProperSubtype in to_schema.rs of which some arm adds to a
+    # collection (wherever a refactoring has put it)
+    contributing = set()
+    adts_seen = set()
     for g in sorted(F.hir):
         f = F.fns.get(g)
-        if f is None or f.name != "convert_to_schema_no_cache":
+        if f is None or not (f.file or "").endswith("subtyping/to_schema.rs"):
             continue
         for n in walk(F.hir[g]["body"]):
-            if n["k"] != "Match" or n.get("src") != "Normal" or not re.search(r"(SubTypeTag|ProperSubtype)$", n.get("scrut_adt") or ""):
+            if n["k"] != "Match" or n.get("src") != "Normal":
                 continue
+            m0 = re.search(r"(SubTypeTag|ProperSubtype|bdd::Atom)$", n.get("scrut_adt") or "")
+            if m0:
+                adts_seen.add(m0.group(1))
+            if not re.search(r"(SubTypeTag|ProperSubtype)$", n.get("scrut_adt") or ""):
+                continue
+            adds = lambda body: any(x["k"] == "MethodCall" and x["method"] in ("insert", "extend", "push") for x in walk(body))
+            if not any(adds(a["body"]) for a in n["arms"]):
+                continue
+            contributing.add((n.get("scrut_adt") or "").rsplit("::", 1)[-1])
             for a in n["arms"]:
                 if arm_is_panic(a["body"]):
                     continue
                 v = (a["pat"].get("def") or "_").rsplit("::", 1)[-1]
-                contributes = any(x["k"] == "MethodCall" and x["method"] in ("insert", "extend", "push") for x in walk(a["body"]))
+                contributes = adds(a["body"])
                 rep.ob("C07.3", "contributes/%s::%s" % ((n.get("scrut_adt") or "").rsplit("::", 1)[-1], v), contributes,
-                       "convert_to_schema_no_cache: the %s arm adds nothing to the materialised union: values of that tag are in the semantic type but not in the type handed to code generation" % v,
+                       "%s: the %s arm adds nothing to the materialised union: values of that tag are in the semantic type but not in the type handed to code generation" % (f.name, v),
                        "%s:%s" % (f.file, a["line"]), sample={"arm": v})
     rep.ob("C07.3", "scan", True, sample={"dispatch_matches": n_m})
-    rep.floor("C07.3", "dispatch matches in to_schema.rs", n_m, 10)
+    rep.floor("C07.3", "kinds dispatched in to_schema.rs (SubTypeTag, ProperSubtype, Atom)", len(adts_seen), 3)
+    rep.floor("C07.3", "accumulating dispatches (SubTypeTag, ProperSubtype)", len(contributing), 2)
 
     rep.rule("C07.5", "atom materialisation depends on every field of the atomic type")
     atom_field_coverage(cx, rep, F)
